@@ -94,21 +94,26 @@ func (defaultSharedInitializeCaller) Call(s *slip.Scope, args slip.List, depth i
 		if sd == nil {
 			slip.ErrorPanic(s, depth, "%s is not a valid initarg for %s.", k, obj.Type.Name())
 		}
-		if n, has := nameMap[sd.name]; has {
-			slip.ErrorPanic(s, depth, "Duplicate initarg (%s) for slot %s. %s already specified.", sd.name, k, n)
+		// An initarg can be declared for more than one slot.
+		for _, sd = range append([]*SlotDef{sd}, obj.Type.sharedInitArgDefs(k)...) {
+			if n, has := nameMap[sd.name]; has {
+				slip.ErrorPanic(s, depth, "Duplicate initarg (%s) for slot %s. %s already specified.", sd.name, k, n)
+			}
+			obj.setSlot(s, sd, v, depth)
+			nameMap[sd.name] = k
 		}
-		obj.setSlot(s, sd, v, depth)
-		nameMap[sd.name] = k
 	}
 	for k, v := range obj.Type.defaultsMap() {
 		sd := obj.Type.initArgDef(k)
-		if _, has := nameMap[sd.name]; !has {
-			if v == nil {
-				obj.setSlot(s, sd, nil, depth)
-			} else {
-				obj.setSlot(s, sd, v.Eval(s, depth+1), depth)
+		for _, sd = range append([]*SlotDef{sd}, obj.Type.sharedInitArgDefs(k)...) {
+			if _, has := nameMap[sd.name]; !has {
+				if v == nil {
+					obj.setSlot(s, sd, nil, depth)
+				} else {
+					obj.setSlot(s, sd, v.Eval(s, depth+1), depth)
+				}
+				nameMap[sd.name] = k
 			}
-			nameMap[sd.name] = k
 		}
 	}
 	for k, sd := range obj.Type.initFormMap() {
